@@ -5,7 +5,10 @@ import EosProofs.Lemmas.WorldWF
 `Lemmas/DepCache.lean`: what `deps` lists, locality of `evalD` in exactly those nodes, and the decrease of
 the universe's rank along `deps` for a rank-well-formed universe.  No `Nodup` hypothesis is needed here:
 `item?` / `attrMeta?` pick the first entry with an id, and `readerOf` sees an item only through its id,
-kind and level. -/
+kind and level.  No hypothesis on buff effects either: the warfare-buff payload `Dyn.bspecs` enters the specs
+only through `bspecOK` (source = a warfare-buff attribute, target = the target of a buff template), and
+`rankWF` ranks exactly those reads (`reads_buff`, `reads_resist`), so *every* dynamic state has a ranked
+dependency graph. -/
 namespace Eos.Micro
 open Eos.World Eos.Calc
 
@@ -48,37 +51,69 @@ theorem mem_localSpecs {a : Item} {s : Spec} : s ∈ localSpecs u d a ↔
   · rintro ⟨e, he, m, ⟨hm, hd⟩, rfl⟩; exact ⟨e, he, m, hm, hd, rfl⟩
   · rintro ⟨e, he, m, hm, hd, rfl⟩; exact ⟨e, he, m, ⟨hm, hd⟩, rfl⟩
 
+/-- Projected modifiers of an effect: its own target-domain modifiers, and for a fleet-boost effect the
+well-formed part of the registered warfare-buff payload. -/
+theorem mem_projMods {a : Item} {e : Effect} {m : Modifier} : m ∈ projMods u d a e ↔
+    (m ∈ e.mods ∧ m.domain = 4) ∨ (e.isBuff = true ∧ m ∈ d.bspecs a.id e.id ∧ bspecOK u m = true) := by
+  unfold projMods
+  cases hbf : e.isBuff <;> simp [List.mem_filter]
+
+/-- Without the fleet-boost flag the projected modifiers are the effect's own. -/
+theorem projMods_of_not_buff (a : Item) {e : Effect} (hbf : e.isBuff = false) :
+    projMods u d a e = e.mods.filter (·.domain == 4) := by
+  unfold projMods; simp [hbf]
+
+/-- What a well-formed payload modifier is. -/
+theorem bspecOK_iff {m : Modifier} : bspecOK u m = true ↔
+    m.domain = 4 ∧ m.srcAttr ∈ buffAttrs ∧ u.buffs.any (·.tgtAttr == m.tgtAttr) = true := by
+  simp only [bspecOK, Bool.and_eq_true, beq_iff_eq, List.contains_iff_mem, and_assoc]
+
+theorem projMods_domain {a : Item} {e : Effect} {m : Modifier} (h : m ∈ projMods u d a e) : m.domain = 4 := by
+  rcases mem_projMods.1 h with ⟨_, h⟩ | ⟨_, _, h⟩
+  · exact h
+  · exact (bspecOK_iff.1 h).1
+
 theorem mem_projSpecs {a : Item} {s : Spec} : s ∈ projSpecs u cfg d a ↔
-    ∃ e ∈ running u d a, e.category = 2 ∧ ∃ t ∈ targetsOf cfg d a e, ∃ m ∈ e.mods, m.domain = 4 ∧
-      s = ⟨a, e, m, some t⟩ := by
+    ∃ e ∈ running u d a, (e.category = 2 ∨ e.isBuff = true) ∧ ∃ t ∈ targetsOf cfg d a e,
+      ∃ m ∈ projMods u d a e, s = ⟨a, e, m, some t⟩ := by
   simp only [projSpecs, List.mem_flatMap]
   constructor
   · rintro ⟨e, he, hs⟩
     split at hs
     · rename_i hc
-      simp only [List.mem_flatMap, List.mem_map, List.mem_filter, beq_iff_eq] at hs hc
-      obtain ⟨t, ht, m, ⟨hm, hd⟩, rfl⟩ := hs
-      exact ⟨e, he, hc, t, ht, m, hm, hd, rfl⟩
+      simp only [List.mem_flatMap, List.mem_map, Bool.or_eq_true, beq_iff_eq] at hs hc
+      obtain ⟨t, ht, m, hm, rfl⟩ := hs
+      exact ⟨e, he, hc, t, ht, m, hm, rfl⟩
     · cases hs
-  · rintro ⟨e, he, hc, t, ht, m, hm, hd, rfl⟩
+  · rintro ⟨e, he, hc, t, ht, m, hm, rfl⟩
     refine ⟨e, he, ?_⟩
     rw [if_pos (by simpa using hc)]
-    simp only [List.mem_flatMap, List.mem_map, List.mem_filter, beq_iff_eq]
-    exact ⟨t, ht, m, ⟨hm, hd⟩, rfl⟩
+    simp only [List.mem_flatMap, List.mem_map]
+    exact ⟨t, ht, m, hm, rfl⟩
 
 /-- Every spec acting on `(x, attr)` is carried by a configured item, belongs to one of its running
-effects (an effect of the universe, resolved by its id) and is one of that effect's modifiers. -/
+effects (an effect of the universe, resolved by its id) and is one of that effect's modifiers — or, for a
+fleet-boost effect, a well-formed modifier of the warfare-buff payload registered for the projector. -/
 theorem specsOn_mem {x : Item} {tx : ItemType} {attr : Int} {s : Spec} (h : s ∈ specsOn u cfg d x tx attr) :
-    s.a ∈ cfg.items ∧ s.e ∈ running u d s.a ∧ s.m ∈ s.e.mods ∧ s.m.tgtAttr = attr ∧
-      selects cfg s x tx = true := by
+    s.a ∈ cfg.items ∧ s.e ∈ running u d s.a ∧
+      (s.m ∈ s.e.mods ∨ (s.e.isBuff = true ∧ s.m ∈ d.bspecs s.a.id s.e.id ∧ bspecOK u s.m = true)) ∧
+      s.m.tgtAttr = attr ∧ selects cfg s x tx = true := by
   simp only [specsOn, allSpecs, List.mem_filter, List.mem_flatMap, List.mem_append, Bool.and_eq_true,
     beq_iff_eq] at h
   obtain ⟨⟨a, ha, hs⟩, ht, hsel⟩ := h
   rcases hs with hs | hs
   · obtain ⟨e, he, m, hm, _, rfl⟩ := mem_localSpecs.1 hs
-    exact ⟨ha, he, hm, ht, hsel⟩
-  · obtain ⟨e, he, _, t, _, m, hm, _, rfl⟩ := mem_projSpecs.1 hs
-    exact ⟨ha, he, hm, ht, hsel⟩
+    exact ⟨ha, he, Or.inl hm, ht, hsel⟩
+  · obtain ⟨e, he, _, t, _, m, hm, rfl⟩ := mem_projSpecs.1 hs
+    exact ⟨ha, he, (mem_projMods.1 hm).imp (·.1) id, ht, hsel⟩
+
+/-- In a universe without fleet-boost effects every spec's modifier is one of its effect's. -/
+theorem specsOn_mem_mods (hb : ∀ e ∈ u.effects, e.isBuff = false) {x : Item} {tx : ItemType} {attr : Int}
+    {s : Spec} (h : s ∈ specsOn u cfg d x tx attr) : s.m ∈ s.e.mods := by
+  obtain ⟨_, he, hm, _, _⟩ := specsOn_mem h
+  rcases hm with hm | ⟨hbf, _, _⟩
+  · exact hm
+  · rw [hb _ (running_mem he).1] at hbf; cases hbf
 
 theorem resistRead_some {e : Effect} {x c : Item} {r : Int} (h : resistRead cfg e x = some (c, r)) :
     e.resistAttr = some r ∧ r ≠ 0 ∧ carrierOf cfg x = some c := by
@@ -306,11 +341,19 @@ theorem deps_readable {n m : Node} (hm : m ∈ deps u cfg d n) :
           rcases (mem_deps_iff hx ha hs ht).1 hm with ⟨s, hsp, hsrc | ⟨c, r, hr, hres⟩⟩ | ⟨mx, hmx, rfl⟩
           · obtain ⟨_, he, hmods, htgt, _⟩ := specsOn_mem hsp
             subst hsrc
-            exact List.mem_append_right _ (reads_src (running_mem he).1 hmods htgt)
+            rcases hmods with hmods | ⟨_, _, hok⟩
+            · exact List.mem_append_right _ (reads_src (running_mem he).1 hmods htgt)
+            · obtain ⟨_, hsrc, hany⟩ := bspecOK_iff.1 hok
+              rw [htgt] at hany
+              exact List.mem_append_right _ (reads_buff hany hsrc)
           · obtain ⟨_, he, hmods, htgt, _⟩ := specsOn_mem hsp
             obtain ⟨hra, h0, _⟩ := resistRead_some hr
             subst hres
-            exact List.mem_append_right _ (reads_resist_mod (running_mem he).1 hmods htgt hra h0)
+            rcases hmods with hmods | ⟨hbf, _, hok⟩
+            · exact List.mem_append_right _ (reads_resist_mod (running_mem he).1 hmods htgt hra h0)
+            · obtain ⟨_, _, hany⟩ := bspecOK_iff.1 hok
+              rw [htgt] at hany
+              exact List.mem_append_right _ (reads_resist (running_mem he).1 hra h0 (by rw [hbf, hany]; simp))
           · exact List.mem_append_left _ (by simp [hmx])
 
 /-- In a rank-well-formed universe an attribute with metadata that is readable for `am` is listed
